@@ -105,6 +105,25 @@ Theorem C04_shipped_complete :
      forall it, In it plan -> item_full rho phi (start_state plan st) it).
 Proof. exact @shipped_complete. Qed.
 
+(** "Stationary sample" is a property of the recorded data (zero gradient: the gradient's decomposition prunes to
+    the empty dictionary), whichever way it was recorded -- stationary_point(), add_point with a zero gradient,
+    stationary_point() of a composite c*f.  The list the implementation keeps is an input of the model; the
+    class-generation stream checks on every case that it is exactly the zero-gradient samples ([stat_consistent]);
+    the automatic stationary point preserves this ... *)
+Theorem C04_stationary_list_is_data :
+  forall plan st, stat_consistent st -> stat_consistent (start_state plan st).
+Proof. exact stat_consistent_start. Qed.
+
+(** ... and then the "stationary samples x all samples" statements (ConvexQGFunction, RsiEbFunction) stand for one
+    condition per (recorded zero-gradient sample, other recorded sample). *)
+Theorem C04_stationary_pairs_complete :
+  forall (E : ips) (rho : nat -> E) (phi : nat -> R) st cname f sym,
+    stat_consistent st ->
+    (item_full rho phi st (Pairs LStationary LPoints cname f sym) <->
+     forall si sj, In si (f_points st) -> zero_grad si = true -> In sj (f_points st) -> s_uid si <> s_uid sj ->
+                   holds rho phi (inst st f si sj)).
+Proof. exact @stationary_pairs_complete. Qed.
+
 (** Recording the same samples in another order (any permutation of list_of_points, of
     list_of_stationary_points with the same first element, of T.list_of_points) gives the same set. *)
 Theorem C04_order_independent :
@@ -433,6 +452,8 @@ Print Assumptions C04_pairs_nosym_complete.
 Print Assumptions C04_pairs_sym_complete.
 Print Assumptions C04_inst_holds_denote.
 Print Assumptions C04_shipped_complete.
+Print Assumptions C04_stationary_list_is_data.
+Print Assumptions C04_stationary_pairs_complete.
 Print Assumptions C04_order_independent.
 Print Assumptions C04_plan_order_independent.
 Print Assumptions C04_lmi_qform.
